@@ -61,6 +61,9 @@ def _run_job(job, workdir, idx):
     env.setdefault("ASAN_OPTIONS", "abort_on_error=1:detect_leaks=0:handle_abort=0:allocator_may_return_null=1")
     env.setdefault("UBSAN_OPTIONS", "halt_on_error=1:abort_on_error=1:print_stacktrace=1")
     env.setdefault("TSAN_OPTIONS", "halt_on_error=0:exitcode=66")
+    # glibc fills every malloc'ed block with 0x5A and every freed block with 0xA5: a read of uninitialised or released heap memory
+    # then yields a conspicuous value instead of (usually) zero, in the non-sanitizer builds too
+    env.setdefault("MALLOC_PERTURB_", "165")
     if job.rc_params:
         env["RC_PARAMS"] = job.rc_params
     env.update(job.env)
